@@ -76,18 +76,22 @@ def gen_chmap(rng, kind):
     return rng.choice([[0, 1, 2, 3]] * 3 + [[2, 3, 0, 1], [4, 5, 6, 7], [0, 1, -1, -1], [-1, -1, 0, 1], [8, -1, 2, 3],
                                             [0, 1, 200, 255], [5, 4, 3, 2]])
 
-def replay(pkts, k):
-    """what the H.264 cache (GOP cache off) replays to a consumer joining after k packets: latest SPS, latest PPS"""
+def replay(pkts, k, start=0):
+    """what the H.264 cache (GOP cache off) replays to a consumer joining after k packets of a stream that
+    got its first packet at index start: latest SPS, latest PPS"""
     sps = pps = None
-    for i in range(k):
+    for i in range(start, k):
         if pkts[i][2] == 3:
             sps = i
         elif pkts[i][2] == 4:
             pps = i
     return [i for i in (sps, pps) if i is not None]
 
-def gen_case(rng, refs, kinds_pool, max_clients=3, max_pkts=14, allow_big=True):
+def gen_case(rng, refs, kinds_pool, max_clients=3, max_pkts=14, allow_big=True, replace_p=0.0):
     ncl = rng.randint(1, max_clients)
+    replaced = rng.random() < replace_p
+    if replaced:
+        ncl = max(ncl, 2)
     kinds = [rng.choice(kinds_pool) for _ in range(ncl)]
     for i, k in enumerate(kinds):   # one multicast member per case: only the first member triggers the proxy's replay
         if k == MCAST and MCAST in kinds[:i]:
@@ -96,18 +100,30 @@ def gen_case(rng, refs, kinds_pool, max_clients=3, max_pkts=14, allow_big=True):
     pkts = gen_packets(rng, rng.randint(4, max_pkts), big_ok)
     n = len(pkts)
     attach = sorted(rng.choice([0, 0, 3, rng.randint(0, n)]) for _ in range(ncl))
+    rep = None
+    if replaced:
+        # a second publisher takes the path while the first client is attached to the old stream; the
+        # second client attaches to the new one (consumer ids are per stream: both are number 1)
+        rep = rng.randint(attach[0], max(attach[0], min(attach[1], n)))
+        attach[1:] = [max(a, rep) for a in attach[1:]]
     stops = []
     for i, k in enumerate(kinds):
-        if k != HTTPFLV and rng.random() < 0.35:
-            stops.append([i, rng.randint(attach[i], n), rng.choice([0, 1])])
-    # event list
-    marks = sorted([(attach[i], 0, i, 0) for i in range(ncl)] + [(s[1], 1, s[0], s[2]) for s in stops])
+        p = 0.8 if (replaced and i == 0) else 0.35
+        if k != HTTPFLV and rng.random() < p:
+            lo = max(attach[i], rep) if (replaced and i == 0) else attach[i]
+            stops.append([i, rng.randint(lo, n), rng.choice([0, 1])])
+    # event list; at equal positions: the old stream's client attaches, the new publisher arrives, the others attach, stops
+    marks = [(attach[i], 0 if (replaced and i == 0) else 2, 1, i, 0) for i in range(ncl)]
+    marks += [(s[1], 3, 2, s[0], s[2]) for s in stops]
+    if replaced:
+        marks.append((rep, 1, 4, 0, 0))
+    marks.sort()
     events, pos = [], 0
-    for at, what, i, mode in marks:
+    for at, _, what, i, mode in marks:
         if at > pos:
             events.append([0, at - pos])
             pos = at
-        events.append([1, i] if what == 0 else [2, i, mode])
+        events.append([1, i] if what == 1 else [2, i, mode] if what == 2 else [4])
     if n > pos:
         events.append([0, n - pos])
     events.append([3])
@@ -117,7 +133,13 @@ def gen_case(rng, refs, kinds_pool, max_clients=3, max_pkts=14, allow_big=True):
         for s in stops:
             if s[0] == i:
                 end = s[1]
-        delivered = replay(pkts, attach[i]) + list(range(attach[i], end))
+        start = 0
+        if replaced:
+            if i == 0:
+                end = min(end, rep)      # the old stream has lost its publisher
+            else:
+                start = rep              # the new stream's cache starts empty
+        delivered = replay(pkts, attach[i], start) + list(range(attach[i], max(attach[i], end)))
         clients.append([k, gen_chmap(rng, k), delivered])
     return [refs, [[p[0], p[1]] for p in pkts], clients, events, rng.choice([1, 1, 2, 3])]
 
@@ -130,14 +152,18 @@ def gen_pool_case(rng, kinds_pool=(WSP, WSP, WSP, WSRTSP, TCP)):
     kinds = [rng.choice(kinds_pool) for _ in range(nv)]
     # the adapters of one package share a buffer pool: mostly two viewers of the same family, one of them parked
     r = rng.random()
-    family = WSP if r < 0.5 else WSRTSP if r < 0.85 else None
+    family = WSP if r < 0.4 else WSRTSP if r < 0.65 else TCP if r < 0.9 else None
     if family is not None:
         kinds[0] = kinds[1] = family
+    if family == TCP and rng.random() < 0.5:
+        kinds[1] = rng.choice([WSP, WSRTSP])    # the frame prefix is built by rtp.Packet.Write for every transport
     # distinct payloads of equal and of different lengths: an overwritten buffer shows either way
     pkts = gen_packets(rng, rng.randint(6, 12), False, max_small=600)
     n = len(pkts)
     parked = rng.randrange(2) if family is not None else rng.randrange(nv)
-    if kinds[parked] == TCP and rng.random() < 0.7:
+    if family == TCP:
+        parked = 0
+    elif kinds[parked] == TCP and rng.random() < 0.7:
         parked = next((i for i, k in enumerate(kinds) if k != TCP), parked)
     k0 = rng.randint(0, 3)
     window = rng.randint(2, max(2, min(5, n - k0)))
